@@ -33,43 +33,39 @@ theorem checkValue_some_bounds (rnd : K → K) (clamp periodic : Bool) (lo hi : 
     simp only [Option.any_some, decide_eq_false_iff_not, not_lt] at this
     exact this
 
+theorem wrapCore_of_inRange (rnd : K → K) (clamp : Bool) {l u w : K} (a : l ≤ w) (b : w ≤ u) :
+    wrapCore rnd clamp l u w = w := by
+  unfold wrapCore
+  simp only [not_lt.2 b, not_lt.2 a, if_false]
+  cases clamp
+  · simp
+  · simp [max_eq_left a, min_eq_left b]
+
 /-- a value inside the bounds is stored as given, whatever the rounding and the flags -/
 theorem checkValue_of_inRange (rnd : K → K) (clamp periodic : Bool) (lo hi : Option K) (w : K)
     (h1 : ∀ l, lo = some l → l ≤ w) (h2 : ∀ u, hi = some u → w ≤ u) :
     checkValue rnd clamp periodic lo hi w = some w := by
-  have key : (match periodic, lo, hi with
-      | true, some l, some h => wrapCore rnd clamp l h w
-      | _, _, _ => w) = w := by
-    cases periodic <;> cases lo <;> cases hi <;> try rfl
-    rename_i l u
-    have a := h1 l rfl
-    have b := h2 u rfl
-    unfold wrapCore
-    simp only [not_lt.2 b, not_lt.2 a, if_false]
-    cases clamp
-    · simp
-    · simp [max_eq_left a, min_eq_left b]
-  unfold checkValue
-  simp only [key]
-  have : ((lo.any fun l => decide (w < l)) || (hi.any fun h => decide (w > h))) = false := by
-    cases lo <;> cases hi <;> simp
-    · exact h2 _ rfl
-    · exact h1 _ rfl
-    · exact ⟨h1 _ rfl, h2 _ rfl⟩
-  simp [this]
+  cases periodic <;> cases lo <;> cases hi <;> simp only [checkValue]
+  case true.some.some l u =>
+    have e := wrapCore_of_inRange rnd clamp (h1 l rfl) (h2 u rfl)
+    simp [e, not_lt.2 (h1 l rfl), not_lt.2 (h2 u rfl)]
+  all_goals simp
+  all_goals first | exact h2 _ rfl | exact h1 _ rfl | exact ⟨h1 _ rfl, h2 _ rfl⟩
 
 end generic
 
 theorem checkE_inr_inRange {periodic : Bool} {lo hi : Option ℚ} {v w : ℚ}
     (h : checkE periodic lo hi v = .inr w) : Par.InRange lo hi w := by
   unfold checkE at h
-  split_ifs at h
-  split at h
-  · rename_i w' hw
-    simp only [Sum.inr.injEq] at h
-    subst h
-    exact checkValue_some_bounds id true periodic lo hi v w' hw
-  · simp at h
+  by_cases hz : (periodic && zeroSpanOutside lo hi v) = true
+  · simp [hz] at h
+  · rw [if_neg hz] at h
+    cases hw : wrap periodic lo hi v with
+    | none => simp [hw] at h
+    | some w' =>
+      simp only [hw, Sum.inr.injEq] at h
+      subst h
+      exact checkValue_some_bounds id true periodic lo hi v w' hw
 
 theorem zeroSpanOutside_of_inRange {lo hi : Option ℚ} {w : ℚ} (h : Par.InRange lo hi w) :
     zeroSpanOutside lo hi w = false := by
@@ -116,13 +112,26 @@ theorem checkE_periodic {lo hi : ℚ} (hlt : lo < hi) (v : ℚ) :
 
 /-! ### one parameter -/
 
+theorem pstep_set_inl (sound : Bool) {p : Par} {v : ℚ} (force : Bool) {e : Exc} (hc : p.check v = .inl e) :
+    pstep sound p (.set v force) = (p, some e) := by simp only [pstep, hc]
+
+theorem pstep_set_inr (sound : Bool) {p : Par} {v : ℚ} (force : Bool) {w : ℚ} (hc : p.check v = .inr w) :
+    pstep sound p (.set v force) =
+      if !p.sym && !force then (p, some .RuntimeError) else ({ p with val := some w }, none) := by
+  simp only [pstep, hc]
+
+theorem pstep_fix_inl (sound : Bool) {p : Par} {v : ℚ} {e : Exc} (hc : p.check v = .inl e) :
+    pstep sound p (.fix v) = ({ p with sym := false }, some e) := by simp only [pstep, hc]
+
+theorem pstep_fix_inr (sound : Bool) {p : Par} {v : ℚ} {w : ℚ} (hc : p.check v = .inr w) :
+    pstep sound p (.fix v) = ({ p with sym := false, val := some w }, none) := by simp only [pstep, hc]
+
 theorem pstep_set_ok_inv (sound : Bool) (p : Par) (v : ℚ) (force : Bool)
     (h : (pstep sound p (.set v force)).2 = none) : (pstep sound p (.set v force)).1.Inv := by
-  unfold pstep at *
   cases hc : p.check v with
-  | inl e => simp [hc] at h
+  | inl e => rw [pstep_set_inl sound force hc] at h; simp at h
   | inr w =>
-    simp only [hc] at h ⊢
+    rw [pstep_set_inr sound force hc] at h ⊢
     split_ifs at h ⊢ with hf
     intro w' hw'
     simp only [Option.some.injEq] at hw'
@@ -131,11 +140,10 @@ theorem pstep_set_ok_inv (sound : Bool) (p : Par) (v : ℚ) (force : Bool)
 
 theorem pstep_fix_ok_inv (sound : Bool) (p : Par) (v : ℚ)
     (h : (pstep sound p (.fix v)).2 = none) : (pstep sound p (.fix v)).1.Inv := by
-  unfold pstep at *
   cases hc : p.check v with
-  | inl e => simp [hc] at h
+  | inl e => rw [pstep_fix_inl sound hc] at h; simp at h
   | inr w =>
-    simp only [hc]
+    rw [pstep_fix_inr sound hc]
     intro w' hw'
     simp only [Option.some.injEq] at hw'
     subst hw'
@@ -145,27 +153,19 @@ theorem pstep_inv (sound : Bool) (p : Par) (op : POp) (hp : p.Inv) (hop : op.isB
     (pstep sound p op).1.Inv := by
   cases op with
   | set v force =>
-    by_cases h : (pstep sound p (.set v force)).2 = none
-    · exact pstep_set_ok_inv sound p v force h
-    · have : (pstep sound p (.set v force)).1 = p := by
-        unfold pstep at *
-        cases hc : p.check v with
-        | inl e => simp
-        | inr w =>
-          simp only [hc] at h ⊢
-          split_ifs at h ⊢ with hf
-          · rfl
-          · simp at h
-      rw [this]; exact hp
+    cases hc : p.check v with
+    | inl e => rw [pstep_set_inl sound force hc]; exact hp
+    | inr w =>
+      by_cases hf : (!p.sym && !force) = true
+      · rw [pstep_set_inr sound force hc, if_pos hf]; exact hp
+      · apply pstep_set_ok_inv
+        rw [pstep_set_inr sound force hc, if_neg hf]
   | fix v =>
-    by_cases h : (pstep sound p (.fix v)).2 = none
-    · exact pstep_fix_ok_inv sound p v h
-    · unfold pstep at *
-      cases hc : p.check v with
-      | inl e => simpa [Par.Inv] using hp
-      | inr w => simp [hc] at h
+    cases hc : p.check v with
+    | inl e => rw [pstep_fix_inl sound hc]; exact hp
+    | inr w => apply pstep_fix_ok_inv; rw [pstep_fix_inr sound hc]
   | reset =>
-    unfold pstep
+    simp only [pstep]
     split_ifs
     · intro w hw; simp at hw
     · exact hp
@@ -186,8 +186,9 @@ theorem pstep_fixed (sound : Bool) (p : Par) (op : POp) (hs : p.sym = false) (ho
   | set v force =>
     simp only [POp.forces] at hop
     subst hop
-    unfold pstep
-    cases hc : p.check v <;> simp [hs]
+    cases hc : p.check v with
+    | inl e => rw [pstep_set_inl sound false hc]; exact ⟨rfl, hs⟩
+    | inr w => rw [pstep_set_inr sound false hc]; simp [hs]
   | fix v => simp [POp.forces] at hop
   | reset => simp [pstep, hs]
   | setPeriodic b => simp [pstep, hs]
@@ -212,12 +213,11 @@ theorem pstep_sym (sound : Bool) (p : Par) (op : POp) (hop : op.isFix = false) :
     (pstep sound p op).1.sym = p.sym := by
   cases op with
   | set v force =>
-    unfold pstep
-    cases hc : p.check v
-    · rfl
-    · simp only; split_ifs <;> rfl
+    cases hc : p.check v with
+    | inl e => rw [pstep_set_inl sound force hc]
+    | inr w => rw [pstep_set_inr sound force hc]; split_ifs <;> rfl
   | fix v => simp [POp.isFix] at hop
-  | reset => unfold pstep; split_ifs <;> rfl
+  | reset => simp only [pstep]; split_ifs <;> rfl
   | setPeriodic b => rfl
   | bind lo hi per => rfl
 
@@ -232,14 +232,14 @@ theorem exec_sym (sound : Bool) (p : Par) (ops : List POp) (hops : ∀ op ∈ op
 
 theorem sstep_par_other (sound : Bool) (st : LStore) (x : String) (op : POp) (y : String) (h : y ≠ x) :
     (sstep sound st (.par x op)).1 y = st y := by
-  unfold sstep
-  cases st x with
+  simp only [sstep]
+  cases hx : st x with
   | none => rfl
   | some p => simp [Function.update_of_ne h]
 
 theorem sstep_par_self (sound : Bool) (st : LStore) (x : String) (op : POp) :
     (sstep sound st (.par x op)).1 x = (st x).map fun p => (pstep sound p op).1 := by
-  unfold sstep
+  simp only [sstep]
   cases h : st x with
   | none => simp [h]
   | some p => simp
@@ -248,7 +248,7 @@ theorem exec_par_local (sound : Bool) (st : LStore) (ops : List (String × POp))
     (exec (sstep sound) st (ops.map fun o => SOp.par o.1 o.2)) y =
       (st y).map fun p => exec (pstep sound) p ((ops.filter fun o => o.1 = y).map (·.2)) := by
   induction ops generalizing st with
-  | nil => cases st y <;> rfl
+  | nil => cases h : st y <;> simp [exec_nil, h]
   | cons o rest ih =>
     obtain ⟨x, op⟩ := o
     simp only [List.map_cons, exec_cons]
@@ -322,13 +322,36 @@ theorem Par.copy_of_inv (p : Par) (hp : p.Inv) :
 
 /-! ### ranges of a shared parameter -/
 
+theorem narrowLo_none (a : Option ℚ) : narrowLo a none = a := by cases a <;> rfl
+theorem narrowHi_none (a : Option ℚ) : narrowHi a none = a := by cases a <;> rfl
+
+theorem narrowLo_some (a : Option ℚ) (l : ℚ) :
+    narrowLo a (some l) = some (match a with | none => l | some c => max c l) := by
+  cases a with
+  | none => rfl
+  | some c =>
+    simp only [narrowLo]
+    split_ifs with h
+    · rw [max_eq_right (le_of_lt h)]
+    · rw [max_eq_left (not_lt.1 h)]
+
+theorem narrowHi_some (a : Option ℚ) (l : ℚ) :
+    narrowHi a (some l) = some (match a with | none => l | some c => min c l) := by
+  cases a with
+  | none => rfl
+  | some c =>
+    simp only [narrowHi]
+    split_ifs with h
+    · rw [min_eq_right (le_of_lt h)]
+    · rw [min_eq_left (not_lt.1 h)]
+
 theorem narrowLo_comm (a x y : Option ℚ) : narrowLo (narrowLo a x) y = narrowLo (narrowLo a y) x := by
-  cases a <;> cases x <;> cases y <;> simp only [narrowLo] <;> try rfl
-  all_goals (split_ifs <;> first | rfl | (congr 1; linarith) | (exfalso; linarith))
+  cases x <;> cases y <;> simp only [narrowLo_none, narrowLo_some]
+  cases a <;> simp [max_comm, max_left_comm]
 
 theorem narrowHi_comm (a x y : Option ℚ) : narrowHi (narrowHi a x) y = narrowHi (narrowHi a y) x := by
-  cases a <;> cases x <;> cases y <;> simp only [narrowHi] <;> try rfl
-  all_goals (split_ifs <;> first | rfl | (congr 1; linarith) | (exfalso; linarith))
+  cases x <;> cases y <;> simp only [narrowHi_none, narrowHi_some]
+  cases a <;> simp [min_comm, min_left_comm]
 
 theorem bindAll_lo (sound : Bool) (p : Par) (slots : List (ℚ × ℚ)) :
     (bindAll sound p slots).lo = slots.foldl (fun a s => narrowLo a (some s.1)) p.lo := by
@@ -353,8 +376,7 @@ def slotsOf : List POp → List (ℚ × ℚ)
 /-- the operations of a history in which a parameter is only driven by components: two-sided periodic
 slots, and no explicit `set_periodic` by the user -/
 def POp.plain : POp → Bool
-  | .bind (some _) (some _) (some true) => true
-  | .bind .. => false
+  | .bind lo hi per => lo.isSome && hi.isSome && per == some true
   | .setPeriodic _ => false
   | _ => true
 
@@ -388,11 +410,9 @@ theorem pstep_bind_covers (p : Par) (seen : List (ℚ × ℚ)) (l h : ℚ) (hc :
     · rcases hB with hB | hB
       · rw [r1] at hB; simp at hB
       · rw [r2] at hB; simp at hB
-    · obtain ⟨hB1, hB2⟩ := hB
-      simp only [Bool.not_eq_false] at hB1
-      simp only [Bool.not_eq_false', Bool.and_eq_true, decide_eq_true_eq] at hB2
+    · obtain ⟨hB1, hB2, hB3⟩ := hB
       obtain ⟨c1, c2⟩ := hc hB1 s hs
-      exact ⟨hB2.1 ▸ c1, hB2.2 ▸ c2⟩
+      exact ⟨hB2 ▸ c1, hB3 ▸ c2⟩
 
 theorem pstep_plain_covers (p : Par) (seen : List (ℚ × ℚ)) (op : POp) (hop : op.plain = true)
     (hc : Covers p seen) (hr : Ranged p seen) :
@@ -401,40 +421,33 @@ theorem pstep_plain_covers (p : Par) (seen : List (ℚ × ℚ)) (op : POp) (hop 
   | set v force =>
     have e : (pstep true p (.set v force)).1.lo = p.lo ∧ (pstep true p (.set v force)).1.hi = p.hi ∧
         (pstep true p (.set v force)).1.periodic = p.periodic := by
-      unfold pstep
-      cases p.check v
-      · exact ⟨rfl, rfl, rfl⟩
-      · simp only; split_ifs <;> exact ⟨rfl, rfl, rfl⟩
+      cases hc : p.check v with
+      | inl e => rw [pstep_set_inl true force hc]; exact ⟨rfl, rfl, rfl⟩
+      | inr w => rw [pstep_set_inr true force hc]; split_ifs <;> exact ⟨rfl, rfl, rfl⟩
     simp only [slotsOf, List.nil_append, Covers, Ranged, e.1, e.2.1, e.2.2]
     exact ⟨hc, hr⟩
   | fix v =>
     have e : (pstep true p (.fix v)).1.lo = p.lo ∧ (pstep true p (.fix v)).1.hi = p.hi ∧
         (pstep true p (.fix v)).1.periodic = p.periodic := by
-      unfold pstep
-      cases p.check v <;> exact ⟨rfl, rfl, rfl⟩
+      cases hc : p.check v with
+      | inl e => rw [pstep_fix_inl true hc]; exact ⟨rfl, rfl, rfl⟩
+      | inr w => rw [pstep_fix_inr true hc]; exact ⟨rfl, rfl, rfl⟩
     simp only [slotsOf, List.nil_append, Covers, Ranged, e.1, e.2.1, e.2.2]
     exact ⟨hc, hr⟩
   | reset =>
     have e : (pstep true p .reset).1.lo = p.lo ∧ (pstep true p .reset).1.hi = p.hi ∧
         (pstep true p .reset).1.periodic = p.periodic := by
-      unfold pstep
-      simp only; split_ifs <;> exact ⟨rfl, rfl, rfl⟩
+      simp only [pstep]; split_ifs <;> exact ⟨rfl, rfl, rfl⟩
     simp only [slotsOf, List.nil_append, Covers, Ranged, e.1, e.2.1, e.2.2]
     exact ⟨hc, hr⟩
   | setPeriodic b => simp [POp.plain] at hop
   | bind lo hi per =>
-    cases lo with
-    | none => simp [POp.plain] at hop
-    | some l =>
-      cases hi with
-      | none => simp [POp.plain] at hop
-      | some h =>
-        cases per with
-        | none => simp [POp.plain] at hop
-        | some b =>
-          cases b with
-          | false => simp [POp.plain] at hop
-          | true => exact pstep_bind_covers p seen l h hc hr
+    simp only [POp.plain, Bool.and_eq_true, beq_iff_eq] at hop
+    obtain ⟨⟨h1, h2⟩, h3⟩ := hop
+    subst h3
+    obtain ⟨l, rfl⟩ := Option.isSome_iff_exists.1 h1
+    obtain ⟨h, rfl⟩ := Option.isSome_iff_exists.1 h2
+    exact pstep_bind_covers p seen l h hc hr
 
 theorem slotsOf_cons (op : POp) (rest : List POp) : slotsOf (op :: rest) = slotsOf [op] ++ slotsOf rest := by
   cases op with
